@@ -2424,7 +2424,9 @@ func (p *Parser) evaluateArguments(typeName string, name string, params []Variab
 		}
 		args = append(args, expr)
 
-		if !ignoreParams {
+		if ignoreParams && expr.ValueType().DataType() == DATA_TYPE_UNKNOWN {
+			return nil, p.expectedError(fmt.Sprintf("a value as argument for %s %s", typeName, name), argToken)
+		} else if !ignoreParams {
 			argsLength := len(args)
 
 			// Make sure arguments have not been exceeded.
